@@ -95,6 +95,24 @@ def specMsgsAux (isReq : Bool) (dec : DecKind) : Nat → Bytes → List Msg
         let eos := if !isReq && isEndFlag e.flags && e.len != 0 && !(dec.content body).isEmpty then [Msg.eos (dec.content body)] else []
         Msg.data (some e) e.len :: eos ++ specMsgsAux isReq dec fuel (rest.drop e.len)
 
+/-- the complete messages only (a cut last message / a body of a non-enveloped protocol that
+was never finished is not a message) -/
+def completeMsgsAux (isReq : Bool) (dec : DecKind) : Nat → Bytes → List Msg
+  | 0, _ => []
+  | fuel+1, b =>
+    if b.length < 5 then []
+    else
+      let e : Env := { flags := (b.headD 0).toNat, len := be32 ((b.drop 1).take 4) }
+      let rest := b.drop 5
+      if rest.length < e.len then []
+      else
+        let body := rest.take e.len
+        let eos := if !isReq && isEndFlag e.flags && e.len != 0 && !(dec.content body).isEmpty then [Msg.eos (dec.content body)] else []
+        Msg.data (some e) e.len :: eos ++ completeMsgsAux isReq dec fuel (rest.drop e.len)
+
+def completeMsgs (c : DCfg) (body : Bytes) : List Msg :=
+  if c.isStream then completeMsgsAux c.isReq c.dec (body.length + 1) body else []
+
 /-- messages of a complete body with the given properties -/
 def specMsgs (c : DCfg) (body : Bytes) : List Msg :=
   if c.isStream then specMsgsAux c.isReq c.dec (body.length + 1) body
@@ -222,6 +240,15 @@ def Expect.respCfg (e : Expect) : DCfg :=
   | some f => { isReq := false, isStream := (propsOf f).1, dec := (propsOf f).2 }
   | none => { isReq := false, isStream := false, dec := .broken }
 
+/-- The messages of a direction: the envelope parse of everything that was sent, including
+the report of a cut last message; when the stream did not end regularly (reset, GOAWAY,
+connection lost) the cut remainder need not be reported. -/
+def msgsOK (en : Ending) (c : DCfg) (body : Bytes) (observed : List Msg) : Bool :=
+  observed == specMsgs c body ||
+  (match en with
+   | .done => false
+   | _ => observed == completeMsgs c body)
+
 /-- **the property's predicate on one completed trace** -/
 def traceOK (isServer : Bool) (e : Expect) (t : Obs) : Bool :=
   t.name == e.name
@@ -238,9 +265,9 @@ def traceOK (isServer : Bool) (e : Expect) (t : Obs) : Bool :=
       | none => true)
   && t.events.head? == some OEv.reqStart
   -- request and response messages, in order
-  && reqMsgsOf t.events == specMsgs e.reqCfg e.reqBody
+  && msgsOK e.ending e.reqCfg e.reqBody (reqMsgsOf t.events)
   && reqIdxOf t.events == List.range (reqIdxOf t.events).length
-  && respMsgsOf t.events == specMsgs e.respCfg e.respBody
+  && msgsOK e.ending e.respCfg e.respBody (respMsgsOf t.events)
   && respIdxOf t.events == List.range (respIdxOf t.events).length
   -- its end or reset
   && t.events.getLast? == some (e.lastEv isServer)
